@@ -284,6 +284,107 @@ def judge_multi(name: str, fmt: str, order_rev: bool, res: Dict[str, Any]) -> No
             res['violations'].append(core.violation(f'{c}/multi:{name}', f'[project {name}, {fmt}] {c} {d}', case))
 
 
+# ---- an unparsable module x who imports it, how, and in which order the analysis meets it
+
+BROKEN_AT = {'sibling-late': 'pk/zbroken.py', 'in-late-subpackage': 'pk/zsub/broken.py', 'in-early-subpackage': 'pk/asub/broken.py', 'subpackage-init': 'pk/zsub/__init__.py'}
+IMPORT_FORMS = {'from-abs': 'from {abs} import thing', 'from-rel': 'from {rel} import thing', 'import': 'import {abs}', 'star': 'from {abs} import *', 'import-as-use': 'import {abs} as bm\nclass K(bm.Base): pass'}
+IMPORTERS = ['pk/alpha.py', 'pk/zeta.py', 'pk/__init__.py', 'SUBINIT', 'pk/other/mod.py']
+
+
+def broken_projects() -> List[Tuple[str, Dict[str, str]]]:
+    out: List[Tuple[str, Dict[str, str]]] = []
+    for where, bfile in BROKEN_AT.items():
+        absname = bfile[:-3].replace('/', '.').replace('.__init__', '')
+        subinit = bfile.rsplit('/', 1)[0] + '/__init__.py' if bfile.count('/') == 2 and not bfile.endswith('__init__.py') else None
+        singles = []
+        for imp in IMPORTERS:
+            ifile = subinit if imp == 'SUBINIT' else imp
+            if ifile is None or ifile == bfile:
+                continue
+            for form, tmpl in IMPORT_FORMS.items():
+                if form == 'from-rel':
+                    # relative spelling of the same module from the importer's package
+                    ipkg = ifile.rsplit('/', 1)[0].replace('/', '.')
+                    if not absname.startswith(ipkg + '.'):
+                        continue
+                    rel = '.' + absname[len(ipkg) + 1:]
+                else:
+                    rel = ''
+                singles.append((imp, form, ifile, tmpl.format(abs=absname, rel=rel) + '\n'))
+        combos = [(x,) for x in singles] + [(x, y) for x in singles for y in singles if x[2] < y[2]]
+        for combo in combos:
+            files = {'pk/__init__.py': '', 'pk/other/__init__.py': '', 'pk/ok.py': 'def fine(): "d"\n'}
+            if subinit:
+                files[subinit] = ''
+            for imp, form, ifile, text in combo:
+                files[ifile] = files.get(ifile, '') + text
+            files[bfile] = 'def thing(:\n'
+            out.append((f'{where}|' + '+'.join(f'{imp.split("/")[-1][:-3] if imp != "SUBINIT" else "subinit"}:{form}' for imp, form, _, _ in combo), files))
+    return out
+
+
+def judge_broken(idx: int, res: Dict[str, Any]) -> None:
+    label, files = broken_projects()[idx]
+    res['evals'] += 1
+    res['nontrivial'].add(core.h('broken', label))
+    case = {'kind': 'broken', 'label': label}
+    where = label.split('|')[0]
+    try:
+        with core.time_limit(RUN_TIMEOUT), core.cpu_limit(CPU_BASE + CPU_PER_MODULE * len(files)):
+            with pd.cli_run(files, [], roots=['pk']) as r:
+                core.bump(res, 'driver_runs')
+                if r.exc:
+                    res['violations'].append(core.violation(f'aborts/{r.exc_type}@{r.exc_site}/unparsable:{where}', f'[unparsable module, {label}] the run aborts: {r.exc_type}\n{(r.exc or "")[-500:]}', case))
+                    return
+                if r.status not in (0, 2, 3):
+                    res['violations'].append(core.violation(f'aborts/status-{r.status}/unparsable:{where}', f'[unparsable module, {label}] exit status {r.status}', case))
+                    return
+                for c, d in check_outputs(r, ['ok']):
+                    res['violations'].append(core.violation(f'{c}/unparsable:{where}', f'[unparsable module, {label}] {c} {d}', case))
+    except core.JobTimeout:
+        res['violations'].append(core.violation(f'aborts/hang/unparsable:{where}', f'[unparsable module, {label}] hang', case))
+
+
+# ---- whole projects (the feature projects of the site checks) x option variants: no option turns a fine run into an aborted one
+
+OPTION_VARIANTS: Dict[str, List[str]] = {
+    'sidebar-depth-1': ['--sidebar-expand-depth', '1'], 'sidebar-depth-3': ['--sidebar-expand-depth', '3'], 'toc-depth-0': ['--sidebar-toc-depth', '0'], 'no-sidebar': ['--no-sidebar'],
+    'viewsource': ['--html-viewsource-base', 'http://example.org/src', '--project-base-dir', '.'], 'process-types': ['--process-types'], 'theme-classic': ['--theme', 'classic'],
+    'theme-rtd': ['--theme', 'readthedocs'], 'summary-pages-only': ['--html-summary-pages'], 'warnings-as-errors': ['-W'], 'verbose': ['-vv'], 'project-url': ['--project-url', 'http://example.org/'],
+    'private-everything': ['--privacy', 'PRIVATE:**'], 'hidden-privates': ['--privacy', 'HIDDEN:**._*'], 'public-everything': ['--privacy', 'PUBLIC:**'],
+}
+
+
+def judge_project_options(feat: str, res: Dict[str, Any]) -> None:
+    from mc import site
+    from pydoctor import model
+    files, args, roots = site.project([feat])
+    with site.run([feat]) as r0:
+        if r0.exc or r0.system is None:
+            return          # the plain run is judged by the site checks
+        objs = [(k, type(o).__name__) for k, o in r0.system.allobjects.items() if o.isVisible and ' ' not in k]
+    variants = dict(OPTION_VARIANTS)
+    for k, tn in objs:
+        if tn in ('Class', 'Module', 'Package', 'ZopeInterfaceClass', 'ZopeInterfaceModule') and k not in roots:
+            variants[f'hide:{tn}:{k}'] = ['--privacy', 'HIDDEN:' + k]
+        variants[f'subject:{tn}:{k}'] = ['--html-subject', k]
+    for vname, extra in variants.items():
+        res['evals'] += 1
+        res['nontrivial'].add(core.h('project-option', feat, vname))
+        case = {'kind': 'project-option', 'feat': feat, 'variant': vname, 'args': extra}
+        group = vname.split(':')[0] + (':' + vname.split(':')[1] if ':' in vname else '')
+        try:
+            with core.time_limit(RUN_TIMEOUT), core.cpu_limit(CPU_BASE + CPU_PER_MODULE * len(files)):
+                with pd.cli_run(files, ['-q', *args, *extra], roots=roots) as r:
+                    core.bump(res, 'driver_runs')
+                    if r.exc:
+                        res['violations'].append(core.violation(f'aborts/{r.exc_type}@{r.exc_site}/option:{group}', f'[project {feat} with {extra}] the run aborts: {r.exc_type}\n{(r.exc or "")[-500:]}', case))
+                    elif r.status not in (0, 2, 3):
+                        res['violations'].append(core.violation(f'aborts/status-{r.status}/option:{group}', f'[project {feat} with {extra}] exit status {r.status}', case))
+        except core.JobTimeout:
+            res['violations'].append(core.violation(f'aborts/hang/option:{group}', f'[project {feat} with {extra}] hang', case))
+
+
 def jobs(tier: str) -> Iterable[Tuple[str, Any]]:
     n = len(single_cases())
     for fmt in alphabet.FMTS:
@@ -299,6 +400,13 @@ def jobs(tier: str) -> Iterable[Tuple[str, Any]]:
     rn = list(ROOTP)
     for i in range(0, len(rn), 6):
         yield ('root-projects', ('roots', rn[i:i + 6]))
+    nb = len(broken_projects())
+    for i in range(0, nb, 60):
+        yield ('unparsable-module-x-importers', ('broken', i, min(nb, i + 60)))
+    from mc import site
+    for f in site.NAMES:
+        if f != 'many-mods':
+            yield ('projects-x-options', ('project-options', f))
     if tier == 'thorough':
         for fmt in ('epytext', 'restructuredtext', 'google'):
             for pl in ('module', 'class'):
@@ -319,6 +427,11 @@ def run_job(job: Any, tier: str) -> Dict[str, Any]:
             explore(cs[i:i + BATCH], fmt, res)
         if cs:
             res['samples'].append({'shape': cs[0][0], 'placement': cs[0][1], 'docformat': fmt, 'source': cs[0][2][:300]})
+    elif job[0] == 'broken':
+        for i in range(job[1], job[2]):
+            judge_broken(i, res)
+    elif job[0] == 'project-options':
+        judge_project_options(job[1], res)
     elif job[0] == 'pairs':
         _, fmt, a, pl, which = job
         others = COLLISION if which == 'collision' else list(alphabet.S)
@@ -358,6 +471,12 @@ def replay(case: Dict[str, Any]) -> List[Dict[str, Any]]:
         judge_file_item(case['item'], case['fmt'], res)
     elif case['kind'] == 'roots':
         judge_roots(case['item'], case['fmt'], res)
+    elif case['kind'] == 'broken':
+        idx = [l for l, _ in broken_projects()].index(case['label'])
+        judge_broken(idx, res)
+    elif case['kind'] == 'project-option':
+        judge_project_options(case['feat'], res)
+        res['violations'] = [v for v in res['violations'] if v['case']['variant'] == case['variant']]
     else:
         judge_multi(case['item'], case['fmt'], False, res)
     return res['violations']
